@@ -18,6 +18,8 @@ type Tables struct {
 	Offsets   []uint64    // chunk offsets relative to the start of the mdat payload area
 	Co64      bool
 	Timescale uint32
+	// ZeroMovie: the movie header's timescale is 0 as well (only meaningful with Timescale 0)
+	ZeroMovie bool
 	Handler   string // handler type of the metadata track ("meta")
 	Name      string // handler name ("\tGoPro MET")
 	NoMeta    bool   // leave the metadata track out
@@ -85,7 +87,11 @@ func Build(payload []byte, t Tables) ([]byte, uint64, error) {
 	f.AddChild(mdat, 0)
 	base := ftyp.Size() + 8
 	moov := mp4.NewMoovBox()
-	moov.AddChild(mp4.CreateMvhd())
+	mvhd := mp4.CreateMvhd()
+	if t.ZeroMovie {
+		mvhd.Timescale = 0
+	}
+	moov.AddChild(mvhd)
 	video := trak("vide", "GoPro AVC", 30000, &Tables{Stts: [][2]uint32{{1, 1001}}, Stsc: [][2]uint32{{1, 1}}, NSamples: 1, Sizes: []uint32{4}, Offsets: []uint64{0}}, base)
 	if t.VideoFirst {
 		moov.AddChild(video)
